@@ -257,6 +257,43 @@ func runC23(c *Ctx) {
 			cleanCalls = append(cleanCalls, cc)
 		}
 	}
+	// the erase phase as a private helper of EnsureTreeState (eraseTreeGlobs(baseDir, globs, subdirs, …)):
+	// decided inside the helper, whose subdirs parameter must be handed the map the write loop walks
+	if len(cleanCalls) == 0 {
+		for _, hc := range localCalls(ets) {
+			var hclean []ssa.CallInstruction
+			for _, cc := range CallSites(hc.h, edsObj) {
+				if IsNilConst(cc.Common().Args[2]) {
+					hclean = append(hclean, cc)
+				}
+			}
+			if len(hclean) != 1 || hc.cc.Parent() != ets {
+				continue
+			}
+			c.touch(hc.h)
+			c.Holds("osutil.EnsureTreeState#cleanup-call", hclean[0].Pos(), "the clean-up call EnsureDirStateGlobs(path, globs, nil) sits in "+hc.h.Name())
+			hrl := LoopContaining(hc.h, hclean[0])
+			okAll := false
+			if hrl != nil && hrl.Coll != nil {
+				for j, hp := range hc.h.Params {
+					if Strip(hrl.Coll) != ssa.Value(hp) && hrl.Coll != ssa.Value(hp) {
+						continue
+					}
+					arg := hc.cc.Common().Args[j]
+					for _, wc := range CallSites(ets, edsObj) {
+						if wl := LoopContaining(ets, wc); wl != nil && wl.Coll != nil && Strip(wl.Coll) == Strip(arg) {
+							okAll = true
+						}
+					}
+					if IsParam(arg, ets, 2) {
+						okAll = false
+					}
+				}
+			}
+			c.Check(okAll, "osutil.EnsureTreeState#cleanup-covers-all-subdirs", hclean[0].Pos(), "the clean-up walks every known sub-directory", "after a failure EnsureTreeState cleans only the desired directories (or a different set than the one it wrote): stale managed files in other existing sub-directories survive")
+			goto treeDone
+		}
+	}
 	if len(cleanCalls) != 1 {
 		c.Undecided("osutil.EnsureTreeState#cleanup-call", ets.Pos(), fmt.Sprintf("expected one EnsureDirStateGlobs(path, globs, nil) clean-up call, found %d", len(cleanCalls)))
 	} else {
@@ -297,4 +334,5 @@ func runC23(c *Ctx) {
 			c.SkipsOnlyAcross("osutil.EnsureTreeState#cleanup-loop", rl, SinkIs(cc), "EnsureDirStateGlobs(path, globs, nil)", Clause{isDir}, false)
 		}
 	}
+treeDone:
 }
